@@ -148,7 +148,12 @@ impl<'a> PrettyPrinter<'a> {
                     !matches!(child.kind(), SyntaxKind::RightParen | SyntaxKind::Space)
                 })
                 .unwrap_or(children.len().saturating_sub(1));
-            children[i..=j].iter()
+            // `i > j` happens when the parentheses contain only spaces, e.g. `sin( )`.
+            if i <= j {
+                children[i..=j].iter()
+            } else {
+                [].iter()
+            }
         };
 
         let mut peek_hashed_arg = false;
